@@ -1703,19 +1703,30 @@ Proof. induction l as [|e l IH]; [reflexivity|]. rewrite nk_cons, nku_cons, nkp_
 Lemma kx_pill g g' k : kx (Pill g k) = kx (Pill g' k).
 Proof. reflexivity. Qed.
 
-Ltac cnt := rewrite ?nb_app, ?no_app, ?nk_app, ?nb_cons, ?no_cons, ?nk_cons; cbn [ev_born ev_out nb no nk map list_sum fold_right emsg].
+Lemma nb_nil : nb [] = 0. Proof. reflexivity. Qed.
+Lemma no_nil : no [] = 0. Proof. reflexivity. Qed.
+Lemma nk_nil : nk [] = 0. Proof. reflexivity. Qed.
+
+Ltac cn :=
+  repeat first [rewrite nb_app | rewrite no_app | rewrite nk_app | rewrite nb_cons | rewrite no_cons
+               | rewrite nk_cons | rewrite nb_nil | rewrite no_nil | rewrite nk_nil];
+  cbn [ev_born ev_out emsg].
+
+Lemma kp_pill g k b : kp {| emsg := Pill g k; esnd := b |} = kx (Pill true k).
+Proof. reflexivity. Qed.
+Lemma kp_user n b : kp {| emsg := User n; esnd := b |} = 0.
+Proof. reflexivity. Qed.
 
 Lemma do_actions_cnt acts s s' t o : do_actions s acts = (s', t, o) ->
   nk (queue s) + nb t = no t + nk (queue s').
 Proof.
   apply (do_actions_rel (fun s t s' => nk (queue s) + nb t = no t + nk (queue s'))).
-  - intros. cbn [nb no map list_sum fold_right]. lia.
-  - intros s0 t1 s1 t2 s2 H1 H2. rewrite nb_app, no_app. lia.
+  - intros. cn. lia.
+  - intros s0 t1 s1 t2 s2 H1 H2. cn. lia.
   - intros s0 n b. unfold send_self. destruct (registered s0); cbn [fst snd sent_of emsg app queue upd_queue];
-      rewrite ?nk_app, ?nb_cons, ?no_cons, ?nk_cons; cbn [ev_born ev_out nb no nk kp map list_sum fold_right emsg]; lia.
+      cn; rewrite ?kp_user; lia.
   - intros s0 g. unfold poison_self. destruct (registered s0); cbn [fst snd queue upd_queue upd_npill];
-      rewrite ?nk_app, ?nb_cons, ?no_cons, ?nk_cons; cbn [ev_born ev_out nb no nk kp map list_sum fold_right emsg];
-      rewrite ?(kx_pill g true); lia.
+      cn; rewrite ?kp_pill; change (kx (Pill g (npill s0))) with (kx (Pill true (npill s0))); lia.
 Qed.
 
 Definition lu (m : lmsg) : nat := match m with LUser n => kx (User n) | _ => 0 end.
@@ -1733,12 +1744,12 @@ Lemma invoke_msg_cnt c s e s' t o : invoke_msg c s e = (s', t, o) ->
 Proof.
   unfold invoke_msg, ku. destruct (emsg e).
   - intros H. apply recv_cnt in H. exact H.
-  - intros [= <- <- <-]. cbn. lia.
+  - intros [= <- <- <-]. cn. lia.
 Qed.
 
 Lemma discard_cnt e : nb (discard e) = 0 /\ no (discard e) = kx (emsg e).
 Proof.
-  unfold discard. destruct (emsg e) as [n|g k]; cbn [nb no map list_sum fold_right ev_born ev_out];
+  unfold discard. destruct (emsg e) as [n|g k]; cn;
     try change (kx (Pill g k)) with (kx (Pill true k)); split; lia.
 Qed.
 Lemma flat_discard_cnt l : nb (flat_map discard l) = 0 /\ no (flat_map discard l) = nk l.
@@ -1753,7 +1764,7 @@ Proof.
   pose proof (discard_cnt e) as [H1 H2]. pose proof (kx_split e) as Hx.
   destruct (emsg e) as [n|g0 k] eqn:Ee; cbv beta iota.
   - assert (Hp : kp e = 0) by (unfold kp; rewrite Ee; reflexivity).
-    destruct g; [cbn [nb no map list_sum fold_right]|rewrite H1, H2]; split; lia.
+    destruct g; [rewrite nb_nil, no_nil|rewrite H1, H2]; split; lia.
   - assert (Hu : ku e = 0) by (unfold ku; rewrite Ee; reflexivity).
     rewrite H1, H2. destruct g; split; lia.
 Qed.
@@ -1768,7 +1779,7 @@ Proof.
   split; [|split; [reflexivity|exact Hm]].
   rewrite nb_cons, no_cons, nb_app, no_app, !nb_cons, !no_cons, nb_app, no_app.
   destruct (flat_discard_cnt (queue s1)) as [-> ->]. cbn [ev_born ev_out].
-  destruct k; cbn [ko nb no map list_sum fold_right ev_born ev_out]; lia.
+  destruct k; cbn [ko]; cn; lia.
 Qed.
 
 Lemma drain_cnt c : forall l s n sk s' t o np sk', drain c s l n sk = (s', t, o, np, sk') ->
@@ -1777,7 +1788,8 @@ Lemma drain_cnt c : forall l s n sk s' t o np sk', drain c s l n sk = (s', t, o,
   nk (queue s) + nb t + nku (firstn (np - n) l) = no t + nk (queue s').
 Proof.
   induction l as [|e l IH]; intros s n sk s' t o np sk' H; cbn [drain] in H.
-  - injection H as <- <- <- <- <-. rewrite Nat.sub_diag. cbn. repeat split; lia.
+  - injection H as <- <- <- <- <-. rewrite Nat.sub_diag. cbn [firstn length]. cn.
+    change (nkp []) with 0. change (nku []) with 0. repeat split; lia.
   - destruct (emsg e) eqn:Ee.
     + destruct (invoke_msg c s e) as [[s1 t1] o1] eqn:E1. apply invoke_msg_cnt in E1. destruct o1.
       * destruct (drain c s1 l (S n) sk) as [[[[s2 t2] o2] np2] sk2] eqn:E2. injection H as <- <- <- <- <-.
@@ -1786,11 +1798,12 @@ Proof.
         assert (kp e = 0) as -> by (unfold kp; rewrite Ee; reflexivity).
         repeat split; try lia. intros Ho. specialize (H3 Ho). lia.
       * injection H as <- <- <- <- <-. replace (S n - n) with 1 by lia. cbn [firstn length]. rewrite nku_cons, nkp_cons.
-        assert (kp e = 0) as -> by (unfold kp; rewrite Ee; reflexivity). cbn.
+        assert (kp e = 0) as -> by (unfold kp; rewrite Ee; reflexivity).
+        change (nkp []) with 0. change (nku []) with 0.
         repeat split; try lia. discriminate.
     + apply IH in H as (H1 & H2 & H3 & H4 & H5).
       replace (np - n) with (S (np - S n)) by lia. cbn [firstn length]. rewrite nku_cons, nkp_cons.
-      rewrite nk_app in H4. cbn in H4.
+      rewrite nk_app, nk_cons, nk_nil in H4.
       assert (ku e = 0) as -> by (unfold ku; rewrite Ee; reflexivity).
       assert (kx (emsg e) = kp e) as Hk by (rewrite kx_split; unfold ku; rewrite Ee; lia).
       repeat split; try lia. intros Ho. specialize (H3 Ho). lia.
@@ -1805,7 +1818,7 @@ Lemma invoke_loop_cnt c (Hs : stopped_safe c) : forall l s n s' t o np d, invoke
     no t + nk (queue s') + match o with Normal => 0 | _ => nk d + nk (skipn (np - n) l) end.
 Proof.
   induction l as [|e l IH]; intros s n s' t o np d H; cbn [invoke_loop] in H.
-  - injection H as <- <- <- <- <-. split; [lia|reflexivity].
+  - injection H as <- <- <- <- <-. split; [lia|cn; lia].
   - destruct (emsg e) eqn:Ee.
     + assert (Hke : kx (emsg e) = ku e) by (rewrite kx_split; unfold kp; rewrite Ee; lia).
       destruct (invoke_msg c s e) as [[s1 t1] o1] eqn:E1. apply invoke_msg_cnt in E1. destruct o1.
@@ -1813,25 +1826,24 @@ Proof.
         apply IH in E2 as [H1 H2]. split; [lia|]. rewrite nb_app, no_app, nk_cons.
         replace (np2 - n) with (S (np2 - S n)) by lia. cbn [skipn]. lia.
       * injection H as <- <- <- <- <-. split; [lia|]. replace (S n - n) with 1 by lia. cbn [skipn].
-        rewrite nk_cons. cbn [nk map list_sum fold_right]. lia.
+        rewrite nk_cons, nk_nil. lia.
     + assert (Hke : kx (emsg e) = ko (Some k)) by (rewrite Ee; reflexivity).
       destruct graceful.
       * destruct (drain c s l (S n) []) as [[[[s1 t1] o1] np1] sk1] eqn:E1.
-        apply drain_cnt in E1 as (D1 & D2 & D3 & D4 & D5). destruct o1.
+        apply drain_cnt in E1 as (D1 & D2 & D3 & D4 & D5). rewrite nk_nil in D4. destruct o1.
         -- destruct (cleanup c s1 (Some k)) as [[s2 t2] o2] eqn:E2.
            pose proof (cleanup_safe _ _ _ _ _ _ Hs E2) as ->. apply cleanup_cnt in E2 as (C1 & C2 & _).
-           injection H as <- <- <- <- <-. split; [lia|]. rewrite !nb_app, !no_app, nk_cons, C2.
+           injection H as <- <- <- <- <-. split; [lia|]. rewrite !nb_app, !no_app, nk_cons, C2, nk_nil.
            destruct (discard_rest_cnt true l) as [-> ->]. specialize (D3 eq_refl).
            replace (np1 - S n) with (length l) in D5 by lia. rewrite firstn_all in D5.
-           rewrite (nk_split l). cbn [nk map list_sum fold_right]. lia.
+           rewrite (nk_split l). lia.
         -- injection H as <- <- <- <- <-. split; [lia|]. rewrite nk_cons.
            replace (np1 - n) with (S (np1 - S n)) by lia. cbn [skipn]. rewrite nk_cons.
-           rewrite (nk_firstn_skipn (np1 - S n) l), (nk_split (firstn (np1 - S n) l)).
-           cbn [nk map list_sum fold_right] in D4. lia.
+           rewrite (nk_firstn_skipn (np1 - S n) l), (nk_split (firstn (np1 - S n) l)). lia.
       * destruct (cleanup c s (Some k)) as [[s2 t2] o2] eqn:E2.
         pose proof (cleanup_safe _ _ _ _ _ _ Hs E2) as ->. apply cleanup_cnt in E2 as (C1 & C2 & _).
-        injection H as <- <- <- <- <-. split; [lia|]. cbn [app]. rewrite !nb_app, !no_app, nk_cons, C2.
-        destruct (discard_rest_cnt false l) as [-> ->]. cbn [nk map list_sum fold_right]. lia.
+        injection H as <- <- <- <- <-. split; [lia|]. cbn [app]. rewrite !nb_app, !no_app, nk_cons, C2, nk_nil.
+        destruct (discard_rest_cnt false l) as [-> ->]. lia.
 Qed.
 
 Theorem safe_cnt c (Hs : stopped_safe c) :
@@ -1846,56 +1858,51 @@ Proof.
     rewrite nb_app, no_app. lia.
   - intros s si ti b s' t' Ei _ IH.
     pose proof (recv_quiet _ _ _ _ _ _ Ei) as [_ (_&_&Hm&_)]. apply recv_cnt in Ei.
-    cbn [queue mbuf upd_inc lu] in Ei, Hm. rewrite nb_cons, nb_app, no_cons, no_app. cbn [ev_born ev_out]. rewrite <- Hm. lia.
+    cbn [queue mbuf upd_inc lu] in Ei, Hm. cn. rewrite <- Hm. lia.
   - intros s si ti s2 ts b s' t' Ei Es _ IH.
     pose proof (recv_quiet _ _ _ _ _ _ Ei) as [_ (_&_&Hm&_)]. apply recv_cnt in Ei.
     pose proof (recv_quiet _ _ _ _ _ _ Es) as [_ (_&_&Hm2&_)]. apply recv_cnt in Es.
-    cbn [queue mbuf upd_inc lu] in Ei, Hm, Es. rewrite nb_cons, nb_app, nb_cons, nb_app, no_cons, no_app, no_cons, no_app.
-    cbn [ev_born ev_out]. rewrite <- Hm, <- Hm2. lia.
+    cbn [queue mbuf upd_inc lu] in Ei, Hm, Es. cn. rewrite <- Hm, <- Hm2. lia.
   - intros s si ti s2 ts Ei Es Hb.
     pose proof (recv_quiet _ _ _ _ _ _ Ei) as [_ (_&_&Hm&_)]. apply recv_cnt in Ei.
     pose proof (recv_quiet _ _ _ _ _ _ Es) as [_ (_&_&Hm2&_)]. apply recv_cnt in Es.
-    cbn [queue mbuf upd_inc lu] in Ei, Hm, Es. rewrite nb_cons, nb_app, nb_cons, nb_app, nb_cons, no_cons, no_app, no_cons, no_app, no_cons.
-    cbn [ev_born ev_out]. rewrite <- Hm, <- Hm2, Hb.
-    unfold start_end. destruct (dead s2); cbn [fst snd queue upd_istopped nb no nk map list_sum fold_right ev_born ev_out]; lia.
+    cbn [queue mbuf upd_inc lu] in Ei, Hm, Es. rewrite <- Hm, <- Hm2, Hb.
+    unfold start_end. destruct (dead s2); cbn [fst snd queue upd_istopped]; cn; lia.
   - intros s si ti s2 ts s3 t3 Ei Es Hb _ IH.
     pose proof (recv_quiet _ _ _ _ _ _ Ei) as [_ (_&_&Hm&_)]. apply recv_cnt in Ei.
     pose proof (recv_quiet _ _ _ _ _ _ Es) as [_ (_&_&Hm2&_)]. apply recv_cnt in Es.
-    cbn [queue mbuf upd_inc lu] in Ei, Hm, Es.
-    rewrite nb_cons, nb_app, nb_cons, nb_app, nb_cons, nb_app, no_cons, no_app, no_cons, no_app, no_cons, no_app.
-    cbn [ev_born ev_out]. rewrite <- Hm, <- Hm2.
-    unfold start_end. destruct (dead (upd_mbuf s3 [])); cbn [fst snd queue upd_istopped upd_mbuf nb no nk map list_sum fold_right ev_born ev_out]; lia.
+    cbn [queue mbuf upd_inc lu] in Ei, Hm, Es. rewrite <- Hm, <- Hm2.
+    unfold start_end. destruct (dead (upd_mbuf s3 [])); cbn [fst snd queue upd_istopped upd_mbuf]; cn; lia.
   - intros s s1 t1 s' t' E1 _ IH.
     pose proof (recv_quiet _ _ _ _ _ _ E1) as [_ (_&_&Hm&_)]. apply recv_cnt in E1. cbn [lu] in E1.
-    rewrite nb_app, nb_cons, no_app, no_cons. cbn [ev_born ev_out]. rewrite <- Hm. lia.
+    cn. rewrite <- Hm. lia.
   - intros s s1 t1 Hmax E1. apply cleanup_cnt in E1 as (C1 & C2 & C3).
     rewrite nb_cons, nb_app, no_cons, no_app. destruct (flat_discard_cnt (mbuf s1)) as [-> ->].
-    cbn [ev_born ev_out queue upd_mbuf ko] in *. rewrite C2, C3. cbn [nk map list_sum fold_right]. lia.
+    cbn [ev_born ev_out queue upd_mbuf ko] in *. rewrite C2, C3, nk_nil. lia.
   - intros s s1 t1 s' t3 Hne E1 _ IH.
     pose proof (recv_quiet _ _ _ _ _ _ E1) as [_ (_&_&Hm&_)]. apply recv_cnt in E1. cbn [lu] in E1.
-    cbn [queue mbuf upd_restarts] in IH.
-    rewrite nb_app, !nb_cons, no_app, !no_cons. cbn [ev_born ev_out]. rewrite <- Hm. lia.
+    cbn [queue mbuf upd_restarts] in IH. cn. rewrite <- Hm. lia.
 Qed.
 
 Lemma RunLoop_cnt c (Hs : stopped_safe c) s s' t : RunLoop_s c s s' t ->
   nk (queue s) + nb t = no t + nk (queue s').
 Proof.
-  induction 1 as [s E|s E Eq|s s1 t1 s2 t2 E Eq Hi _ IH]; try reflexivity.
+  induction 1 as [s E|s E Eq|s s1 t1 s2 t2 E Eq Hi _ IH]; try (cn; lia).
   apply (proj1 (safe_cnt c Hs)) in Hi. cbn [queue upd_queue] in Hi.
   rewrite (nk_firstn_skipn (batch c) (queue s)), nb_app, no_app. lia.
 Qed.
 
-Lemma ext_pre_cnt s x s1 t1 : ext_pre s x = (s1, t1) -> nk (queue s) + nb t1 = no t1 + nk (queue s1).
+Lemma ext_pre_cnt s xo s1 t1 : ext_pre s xo = (s1, t1) -> nk (queue s) + nb t1 = no t1 + nk (queue s1).
 Proof.
-  destruct x; cbn [ext_pre]; unfold send_self, poison_self; destruct (registered s); intros [= <- <-];
-    cbn [sent_of emsg app queue upd_queue upd_npill];
-    rewrite ?nk_app, ?nb_cons, ?no_cons, ?nk_cons; cbn [ev_born ev_out nb no nk kp map list_sum fold_right emsg]; lia.
+  destruct xo; cbn [ext_pre]; unfold send_self, poison_self; destruct (registered s); intros [= <- <-];
+    cbn [sent_of emsg app queue upd_queue upd_npill]; cn; rewrite ?kp_user, ?kp_pill;
+    try change (kx (Pill false (npill s))) with (kx (Pill true (npill s))); lia.
 Qed.
 
 Lemma Exts_cnt c (Hs : stopped_safe c) s xs s' t : Exts_s c s xs s' t ->
   nk (queue s) + nb t = no t + nk (queue s').
 Proof.
-  induction 1 as [s|s x s1 t1 s2 t2 xs s3 t3 Ep Hl _ IH]; [reflexivity|].
+  induction 1 as [s|s xo s1 t1 s2 t2 xs s3 t3 Ep Hl _ IH]; [cn; lia|].
   apply ext_pre_cnt in Ep. apply (RunLoop_cnt c Hs) in Hl. rewrite !nb_app, !no_app. lia.
 Qed.
 
@@ -1903,7 +1910,7 @@ Theorem Run_cnt c (Hs : stopped_safe c) xs s t : Run_s c xs s t -> nb t = no t +
 Proof.
   intros [s0 t0 s1 t1 s2 t2 H0 H1 H2].
   apply (proj1 (proj2 (safe_cnt c Hs))) in H0. apply (RunLoop_cnt c Hs) in H1. apply (Exts_cnt c Hs) in H2.
-  cbn [queue mbuf init_pst nk map list_sum fold_right] in H0. rewrite !nb_app, !no_app. lia.
+  cbn [queue mbuf init_pst] in H0. rewrite nk_nil in H0. rewrite !nb_app, !no_app. lia.
 Qed.
 
 End Count.
